@@ -52,7 +52,10 @@ pub const INFO: Info = Info {
            partial / exactly full / B > #fragments) and queried with ~20 queries: precursor window everything / empty / \
            inverted / partial around a stored mass / edge exactly equal to a stored peptide mass; fragment window \
            around a stored fragment, edge exactly equal to a bucket's min_value, everything, empty; ppm, Da (and Pct \
-           precursor) tolerances; charge 1..4. FASTA mode (quick 60+10, thorough 500+60 cases, digests with more than 8000 fragments skipped): 1-4 (6) generated proteins (K/R-rich, shared segments, palindromes, \
+           precursor) tolerances; charge 1..4. About one query in four uses an OFFSET tolerance on the precursor and/or fragment side, ppm and Da: \
+           both bounds positive, both negative, lo > hi (same and mixed sign), zero width at an offset; the centre is placed so \
+           that a stored value is inside the window, exactly at the centre (outside the window, inside its mirror image) or on the \
+           mirrored side. FASTA mode (quick 60+10, thorough 500+60 cases, digests with more than 8000 fragments skipped): 1-4 (6) generated proteins (K/R-rich, shared segments, palindromes, \
            isobaric anagram peptides) through the REAL Parameters::digest with random decoys / variable M, S/T, N-term / static C \
            / missed cleavages 0-2 / max_variable_mods 1-2, then build_from_peptides per B and the same queries. \
            pageseq (quick 160+15, thorough 2500+200 cases): ONE IndexedQuery per index (bucket sizes from {1,2,4,8} with >= 3 pages, \
@@ -659,9 +662,13 @@ fn seq_case(rng: &mut Rng, d: &Desc, quick: bool) -> Option<Case> {
     let (pre_mass, pre_tol) = match rng.below(6) {
         0 | 1 | 2 => (1000.0, Tolerance::Da(-1.0e6, 1.0e6)),
         3 if dup_mass(&masses).is_some() => (dup_mass(&masses).unwrap(), Tolerance::Da(neg(width(rng)), 0.0)),
+        4 => (*rng.pick(&masses) - 300.0, *rng.pick(&[Tolerance::Da(100.0, 900.0), Tolerance::Ppm(100000.0, 900000.0)])),
         _ => (*rng.pick(&masses), Tolerance::Da(neg(*rng.pick(&[0.5f32, 2.5, 100.0])), *rng.pick(&[0.5f32, 2.5, 100.0]))),
     };
-    let frag_tol = if rng.chance(1, 2) {
+    let frag_tol = if rng.chance(1, 6) {
+        // offset fragment window (does not contain the looked-up mass)
+        *rng.pick(&[Tolerance::Da(0.25, 1.0), Tolerance::Da(-1.0, -0.25), Tolerance::Ppm(200.0, 2000.0), Tolerance::Ppm(-2000.0, -200.0), Tolerance::Da(0.5, 0.5)])
+    } else if rng.chance(1, 2) {
         let w = *rng.pick(&[5.0f32, 10.0, 20.0, 50.0, 500.0]);
         Tolerance::Ppm(neg(w), w)
     } else {
@@ -737,13 +744,66 @@ fn seq_case(rng: &mut Rng, d: &Desc, quick: bool) -> Option<Case> {
     )
 }
 
+/// an OFFSET tolerance (the window does not straddle its centre, is inverted, or has zero width) and a centre
+/// placed relative to the stored value `x`: inside the true window, exactly at the centre (outside an offset
+/// window, but inside its mirror image [c-|lo|, c+|hi|]), or on the mirrored side
+fn offset_query(rng: &mut Rng, x: f32) -> (f32, Tolerance, &'static str) {
+    let ppm = rng.chance(1, 2);
+    let a = if ppm { *rng.pick(&[200.0f32, 2000.0, 50000.0]) } else { *rng.pick(&[0.25f32, 1.0, 100.0]) };
+    let w = if ppm { *rng.pick(&[100.0f32, 1500.0, 100000.0]) } else { *rng.pick(&[0.5f32, 0.75, 800.0]) };
+    let (lo, hi, tag) = match rng.below(7) {
+        0 | 1 => (a, a + w, "both-positive"),
+        2 | 3 => (neg(a + w), neg(a), "both-negative"),
+        4 => (a + w, a, "lo>hi-same-sign"),
+        5 => (a, neg(a), "lo>hi-mixed-sign"),
+        _ => {
+            if rng.chance(1, 2) {
+                (a, a, "zero-width-offset")
+            } else {
+                (neg(a), neg(a), "zero-width-offset")
+            }
+        }
+    };
+    // offset (in Da or ppm) of the point of the window we aim at the stored value
+    let aim = match rng.below(5) {
+        0 => lo,
+        1 => hi,
+        2 => 0.0,                 // stored value AT the centre
+        3 => neg((lo + hi) / 2.0), // stored value on the mirrored side
+        _ => (lo + hi) / 2.0,
+    };
+    let center = if ppm { x / (1.0 + aim / 1.0e6) } else { x - aim };
+    let center = if center == 0.0 { 0.0 } else { center };
+    let tol = if ppm { Tolerance::Ppm(lo, hi) } else { Tolerance::Da(lo, hi) };
+    let full = match (ppm, tag) {
+        (true, "both-positive") => "offset:ppm-both-positive",
+        (true, "both-negative") => "offset:ppm-both-negative",
+        (true, "lo>hi-same-sign") => "offset:ppm-lo>hi",
+        (true, "lo>hi-mixed-sign") => "offset:ppm-lo>hi",
+        (true, _) => "offset:ppm-zero-width",
+        (false, "both-positive") => "offset:da-both-positive",
+        (false, "both-negative") => "offset:da-both-negative",
+        (false, "lo>hi-same-sign") => "offset:da-lo>hi",
+        (false, "lo>hi-mixed-sign") => "offset:da-lo>hi",
+        (false, _) => "offset:da-zero-width",
+    };
+    (center, tol, full)
+}
+
 fn gen_query(rng: &mut Rng, dbs: &[IndexedDatabase], tags: &mut QTags) -> Query {
     let db = &dbs[rng.below(dbs.len())];
     let masses: Vec<f32> = db.peptides.iter().map(|p| p.monoisotopic).collect();
     let charge = 1 + rng.below(4) as u8;
     // ---- precursor side
     let everything = Tolerance::Da(-1.0e6, 1.0e6);
-    let (pre_mass, pre_tol) = match rng.below(10) {
+    let (pre_mass, pre_tol) = match rng.below(13) {
+        10 | 11 | 12 if !masses.is_empty() => {
+            let x = *rng.pick(&masses);
+            let (c, t, tag) = offset_query(rng, x);
+            tags.tags.push("pre:offset-tolerance");
+            tags.tags.push(tag);
+            (c, t)
+        }
         0 => {
             tags.tags.push("pre:everything");
             (1000.0, everything)
@@ -785,7 +845,14 @@ fn gen_query(rng: &mut Rng, dbs: &[IndexedDatabase], tags: &mut QTags) -> Query 
     };
     // ---- fragment side
     let c = charge as f32;
-    let (frag_mz, frag_tol) = match rng.below(10) {
+    let (frag_mz, frag_tol) = match rng.below(13) {
+        10 | 11 | 12 if !db.fragments.is_empty() => {
+            let x = if rng.chance(1, 3) && !db.min_value.is_empty() { *rng.pick(&db.min_value) } else { rng.pick(&db.fragments).fragment_mz };
+            let (m, t, tag) = offset_query(rng, x);
+            tags.tags.push("frag:offset-tolerance");
+            tags.tags.push(tag);
+            (m / c, t)
+        }
         0 => {
             tags.tags.push("frag:everything");
             (500.0, Tolerance::Da(-1.0e5, 1.0e5))
